@@ -239,7 +239,10 @@ class CFG:
         if isinstance(v, ast.Constant):
             return ret('T').id
         if isinstance(v, (ast.BoolOp, ast.Compare, ast.Call)) or (
-                isinstance(v, ast.UnaryOp) and isinstance(v.op, ast.Not)):
+                isinstance(v, ast.UnaryOp) and isinstance(v.op, ast.Not)) or (
+                isinstance(v, ast.Name) and v.id in self.flag_names):
+            # (a result variable that only ever holds True/False is returned
+            # like the test it stands for)
             t = ret('T')
             f = ret('F')
             return self._cond(v, ctx, t.id, f.id)
@@ -587,6 +590,19 @@ def _bool_only_locals(prog, func):
                     if isinstance(nm, ast.Name):
                         bad.add(nm.id)
     names = {k for k, v in cands.items() if all(v) and k not in bad}
+    # a local that is returned is a boolean result variable only if it is
+    # also assigned a literal True/False somewhere (``ok = False ... ok =
+    # f(x) ... return ok``); ``x = f(); return x`` returns a value
+    has_bool_const = {
+        n.targets[0].id for n in ast.walk(func.node)
+        if isinstance(n, ast.Assign) and len(n.targets) == 1 and
+        isinstance(n.targets[0], ast.Name) and isinstance(
+            n.value, ast.Constant) and (n.value.value is True or
+                                        n.value.value is False)}
+    returned = {n.value.id for n in ast.walk(func.node)
+                if isinstance(n, ast.Return) and isinstance(
+                    n.value, ast.Name)}
+    names -= (returned - has_bool_const)
     # at least one non-constant assignment (constant-only ones are flags
     # already) - harmless either way
     changed = True
@@ -626,6 +642,11 @@ def _truth_use(prog, name_node, names):
                 par.test is cur:
             return True
         if isinstance(par, ast.Assert) and par.test is cur:
+            return True
+        if isinstance(par, ast.Return) and par.value is cur and \
+                cur is name_node:
+            # ``return result`` of a boolean result variable is returned
+            # like the test it stands for (see _return)
             return True
         if isinstance(par, ast.Assign) and par.value is cur and \
                 len(par.targets) == 1 and isinstance(
